@@ -244,6 +244,8 @@ def e1_writer_faults(ctx):
     tlc_mc(ctx, "WriterFaults", "MC_WriterFaults.cfg", workers=4)
     tlc_mc(ctx, "WriterFaults", "MC_WriterFaults_dev_DropFlushErr.cfg", workers=4, expect_violation="NoSilentSuccess")
     tlc_mc(ctx, "WriterFaults", "MC_WriterFaults_dev_PollAfterDataNil.cfg", workers=4, expect_violation="NoSilentSuccess")
+    tlc_mc(ctx, "WriterFaults", "MC_WriterFaults_dev_SkipFlushWhenFull.cfg", workers=4, expect_violation="NoSilentSuccess")
+    tlc_mc(ctx, "WriterFaults", "MC_WriterFaults_dev_OverwriteErr.cfg", workers=4, expect_violation="NoSilentSuccess")
 
 
 def e1_builder_pool(ctx):
